@@ -88,7 +88,7 @@ class Srv6(FlagLS):
             neighbor_id = ISO.unpack_sysid(data[6:12])
         else:
             neighbor_id = str(IP.create_ip(data[6:10]))
-        start_offset = 12 if protocol_type == ISIS else 6
+        start_offset = 12 if protocol_type == ISIS else 10
         sid = IPv6.ntop(data[start_offset : start_offset + 16])
         data = data[start_offset + 16 :]
         subtlvs: list[str] = []
